@@ -24,6 +24,7 @@
 #include <sys/socket.h>
 #include <sys/uio.h>
 #include <sys/un.h>
+#include <sys/mman.h>
 #include <netinet/in.h>
 #include <arpa/inet.h>
 #include "uv.h"
@@ -44,7 +45,11 @@ struct wreq {
   int id;
   char* payload;
   size_t total;
+  int virt;       /* huge request: the payload is reserved address space only (PROT_NONE), never handed to the kernel */
 };
+#define VIRT_MIN ((size_t) 16 << 20)       /* requests of 16 MiB and more are virtual */
+#define MAX_RW_COUNT ((size_t) 0x7ffff000) /* what one write/writev/sendmsg transfers at most on Linux */
+static unsigned long long virt_bytes;      /* bytes "accepted" of virtual requests */
 
 static int tcp_mode;
 /* connecting cases: 't'/'u' = uv_tcp_connect / uv_pipe_connect to a listener of the harness,
@@ -148,14 +153,39 @@ static ssize_t scripted_writev(const struct iovec* iov, int iovcnt, void* contro
     return -1;
   }
   {
-    size_t want = offered, left; struct iovec* cp; int cnt = 0;
+    size_t want = offered, left; struct iovec* cp; int cnt = 0, virt = 0;
+    for (i = 0; i < iovcnt && !virt; i++) {
+      size_t o3; int id = locate(iov[i].iov_base, &o3);
+      if (id >= 0 && reqs[id]->virt) virt = 1;
+    }
+    if (want > MAX_RW_COUNT) want = MAX_RW_COUNT;
     if (tok[0] == 'n') { unsigned long long k = strtoull(tok + 1, NULL, 10); if (k < want) want = k; }
+    if (virt) {
+      /* a huge request: the kernel never sees it; the answer is just the number */
+      size_t acc = want; int cur = -2; size_t cur_off = 0, cur_len = 0;
+      fprintf(olog, "n%zu ", want);
+      for (i = 0; i < iovcnt && acc > 0; i++) {
+        size_t l = iov[i].iov_len < acc ? iov[i].iov_len : acc, off = 0; int id;
+        if (l == 0) continue;
+        id = locate(iov[i].iov_base, &off);
+        if (id == cur && off == cur_off + cur_len) cur_len += l;
+        else {
+          if (cur != -2 && !g_quiet) printf("c%d,%zu,%zu ", cur, cur_off, cur_len);
+          cur = id; cur_off = off; cur_len = l;
+        }
+        acc -= l;
+      }
+      if (cur != -2 && !g_quiet) printf("c%d,%zu,%zu ", cur, cur_off, cur_len);
+      virt_bytes += want;
+      errno = 0;
+      return (ssize_t) want;
+    }
     cp = malloc(sizeof(*cp) * (iovcnt > 0 ? iovcnt : 1));
     left = want;
     for (i = 0; i < iovcnt; i++) {
       size_t l = iov[i].iov_len < left ? iov[i].iov_len : left;
-      if (tok[0] == 'n' && left == 0) break;
-      cp[cnt].iov_base = iov[i].iov_base; cp[cnt].iov_len = (tok[0] == 'n') ? l : iov[i].iov_len; cnt++;
+      if (left == 0 && want < offered) break;
+      cp[cnt].iov_base = iov[i].iov_base; cp[cnt].iov_len = l; cnt++;
       left -= l;
     }
     if (has_fd) {                              /* keep the control message on the real call */
@@ -287,10 +317,18 @@ static struct wreq* make_req(const char* lens, uv_buf_t** bufs_out, unsigned* nb
     while (k--) { if (n == cap) { cap *= 2; ls = realloc(ls, cap * sizeof *ls); } ls[n++] = a; total += a; }
     if (*p == ',') p++;
   }
-  w->id = nreq; w->total = total; w->payload = malloc(total + 1);
-  for (i = 0; i < total; i++) w->payload[i] = pay(w->id, i);
+  w->id = nreq; w->total = total;
+  if (total >= VIRT_MIN) {
+    w->virt = 1;
+    w->payload = mmap(NULL, total + 1, PROT_NONE, MAP_PRIVATE | MAP_ANONYMOUS | MAP_NORESERVE, -1, 0);
+    if (w->payload == MAP_FAILED) { printf("mmap-failed "); w->payload = malloc(1); w->total = total = 0; n = 0; }
+  } else {
+    w->payload = malloc(total + 1);
+    for (i = 0; i < total; i++) w->payload[i] = pay(w->id, i);
+  }
   bufs = malloc((n ? n : 1) * sizeof *bufs);
-  for (i = 0, pos = 0; i < n; i++) { bufs[i] = uv_buf_init(w->payload + pos, ls[i]); pos += ls[i]; }
+  /* uv_buf_init() takes an unsigned int length; the fields are size_t */
+  for (i = 0, pos = 0; i < n; i++) { bufs[i].base = w->payload + pos; bufs[i].len = ls[i]; pos += ls[i]; }
   free(ls);
   reqs[nreq++] = w;
   *bufs_out = bufs; *nbufs_out = (unsigned) n;
@@ -398,7 +436,7 @@ static void run_case(char* line) {
   olog = open_memstream(&olog_buf, &olog_len);
   plog = open_memstream(&plog_buf, &plog_len);
   nreq = 0; g_quiet = 0; g_closing = 0; g_closed = 0; shut_called = 0; shutans_seen = -shutans_script;
-  peer_bytes = 0; peer_eof = 0; peer_ok = 1; expect_len = 0;
+  peer_bytes = 0; peer_eof = 0; peer_ok = 1; expect_len = 0; virt_bytes = 0;
 
   clog = open_memstream(&clog_buf, &clog_len);
   g_fd = g_peer = g_ls = -1; sock_path[0] = 0; conn_res = 0;
@@ -452,7 +490,7 @@ static void run_case(char* line) {
   do_ops(sec[1], 0);
 
   drain_peer();
-  printf("e%llu,%d,%d", peer_bytes, peer_eof, peer_ok);
+  printf("e%llu,%d,%d", peer_bytes + virt_bytes, peer_eof, peer_ok);
   for (i = 0; i < nreq && i < 4096; i++) if (peer_fds[i] > 0) printf(" p%d:%d", i, peer_fds[i]);
 
   /* tear down quietly */
@@ -471,7 +509,10 @@ static void run_case(char* line) {
                         (conn_mode == 't' || conn_mode == 'T') ? 't' : 'u', conn_res, clog_buf);
   else printf(" ; %s; %s; %d ; -\n", olog_buf, plog_buf, shutans_seen);
   free(olog_buf); free(plog_buf); free(clog_buf); free(script);
-  for (i = 0; i < nreq; i++) { free(reqs[i]->payload); free(reqs[i]); reqs[i] = NULL; }
+  for (i = 0; i < nreq; i++) {
+    if (reqs[i]->virt) munmap(reqs[i]->payload, reqs[i]->total + 1); else free(reqs[i]->payload);
+    free(reqs[i]); reqs[i] = NULL;
+  }
 }
 
 static void on_alarm(int sig) {
